@@ -36,9 +36,10 @@ LIMIT_S = 40
 class FaultIO(io.BytesIO):
     """BytesIO that raises `exc` at its k-th method call (read/seek/tell/getvalue/getbuffer/readinto/...)."""
 
-    def __init__(self, data, k, exc):
+    def __init__(self, data, k, exc, fault_on_seek=True):
         super().__init__(data)
         self._k, self._exc, self._n = k, exc, 0
+        self._fault_on_seek = fault_on_seek
 
     def _tick(self):
         n = self._n
@@ -51,7 +52,8 @@ class FaultIO(io.BytesIO):
         return super().read(*a)
 
     def seek(self, *a):
-        self._tick()
+        if self._fault_on_seek:
+            self._tick()
         return super().seek(*a)
 
     def tell(self):
@@ -295,10 +297,51 @@ def _cli_discipline(ctx, fx):
     return broken[:10]
 
 
+def _attachments(ctx, fx):
+    """EmailContent.iterate_supported_attachments: whatever an attachment's extractor does, only family
+    exceptions escape (C01_attachments); faults are injected on read/tell/getvalue calls only (seek(0) on the payload is assumed total, as in the theorem)"""
+    from sharepoint2text.parsing.extractors.data_types import EmailAddress, EmailAttachment, EmailContent
+    from sharepoint2text.parsing.mime_types import MIME_TYPE_MAPPING
+    broken = []
+    fam = corpus.family()
+    fam_excs, other_excs = _exc_instances()
+    rng = ctx.rng
+    mimes = sorted(MIME_TYPE_MAPPING)
+    small = [(n, d) for n, d in fx if len(d) < 200_000]
+    for i in range(ctx.n(60, 600)):
+        atts = []
+        for _ in range(rng.randint(1, 3)):
+            mt = rng.choice(mimes)
+            name, data = rng.choice(small)
+            if rng.random() < 0.5:
+                data = (corpus.mutations(rng, name, data, small, 1) or [("same", data)])[0][1]
+            fname = rng.choice([os.path.basename(name), "a." + MIME_TYPE_MAPPING[mt], "noext", "x.bin"])
+            if rng.random() < 0.4:
+                stream = FaultIO(data, rng.randint(0, 5), rng.choice(fam_excs + other_excs), fault_on_seek=False)
+            else:
+                stream = io.BytesIO(data)
+            atts.append(EmailAttachment(filename=fname, mime_type=mt, data=stream, is_supported_mime_type=True))
+        ec = EmailContent(from_email=EmailAddress(), attachments=atts)
+        try:
+            for _ in ec.iterate_supported_attachments():
+                pass
+            kind = "ok"
+        except fam as e:
+            kind = "family"
+        except Exception as e:  # noqa
+            kind = "other"
+            broken.append(Broken("correspondence", "c01.attachments", f"{type(e).__name__} escaped iterate_supported_attachments ({[a.filename for a in atts]})",
+                                 case={"kind": "attachments", "names": [a.filename for a in atts], "mimes": [a.mime_type for a in atts], "exc": type(e).__name__}))
+        ctx.case(("att", i, tuple(a.filename for a in atts)))
+        ctx.count(f"attachments/{kind}")
+    return broken[:5]
+
+
 def correspondence(ctx):
     fx = corpus.fixtures()
     broken = []
     broken += _fault_injection(ctx, fx)
+    broken += _attachments(ctx, fx)
     broken += _hostile_stream(ctx, fx)
     broken += _cli_discipline(ctx, fx)
     return {"broken": broken, "violations": []}
@@ -334,6 +377,8 @@ def search(ctx, broken):
             kind, cls = _consume_with(corpus.extractor(m, f), FaultIO(data, c["k"], exc), None)
             if kind == "other":
                 out.append(Violation(f"surface:{f}", f"{f}: a {c['exc']} raised by the input stream at call {c['k']} escapes as {cls}", c))
+        elif c.get("kind") == "attachments":
+            out.append(Violation("surface:attachments", b.detail, c))
         elif c.get("kind") == "cli":
             with tempfile.TemporaryDirectory(prefix="s2t_c01_") as td:
                 p = os.path.join(td, c["name"])
